@@ -633,3 +633,31 @@ def optvar2_panel(tier):
 
 
 PANELS["optvar2"] = optvar2_panel
+
+
+# --------------------------------------------------------------------------
+def stobads_panel(tier):
+    """the stochastic-MADS success rule (options['stobads'], documented in advanced_bads_options.ini): noisy runs in
+    all three noise modes, opportunistic variant on and off, 1 / 2 / 10 final samples.  The trace specification
+    classifies these polls with the StoMADS rule (see BadsRunTrace StoRule); BadsRun.tla's refinement skips them."""
+    sd = _seed()
+    r = S.rnd(("stobads", sd))
+    out = []
+    nsc = 16 if tier == "quick" else 120
+    for j in range(nsc):
+        D = r.choice([2, 2, 3])
+        mode = ("declared", "auto", "specified")[j % 3]
+        sigma = r.choice([0.5, 1.0, 2.0, 3.0])
+        noise = {"mode": mode, "sigma": sigma, "sd_kind": "hetero" if (mode == "specified" and j % 2) else "const"}
+        o = {"stobads": True, "max_fun_evals": r.choice([80, 100, 150]), "noise_final_samples": (1, 1, 2, 10)[j % 4]}
+        if j % 5 == 4:
+            o["opp_stobads"] = False
+        if j % 7 == 6:
+            o["complete_poll"] = True
+        x0 = [round(r.uniform(-3, 3), 3) for _ in range(D)]
+        out.append(_sc(f"sb{j}", D, S.box_geom(D, x0=x0), _quad(D, r, cond=10.0), noise=noise, options=o,
+                       seed=r.randrange(10 ** 6), tags=["stobads", mode] + ([] if o.get("opp_stobads", True) else ["noopp"])))
+    return out
+
+
+PANELS["stobads"] = stobads_panel
